@@ -1742,7 +1742,12 @@ def check_ranges(ctx, exe, d, n_strings, n_big):
     path = os.path.join(pdir, "io.bin")
     prelude = open(os.path.join(HARNESS, "c12_hist.scm")).read()
     per = 40
-    groups = [cases[i:i + per] for i in range(0, len(cases), per)]
+    # the char-foldcase sweeps (thorough: 8192 scalars per block) get small groups of their own: 40 blocks in one expression took > 400 s at a
+    # load average above 200 and were reported as a hang (round 5)
+    cf_cases = [c for c in cases if c[0] == "cf"]
+    cases = [c for c in cases if c[0] != "cf"]
+    groups = [cases[i:i + per] for i in range(0, len(cases), per)] + [cf_cases[i:i + 4] for i in range(0, len(cf_cases), 4)]
+    cases = cases + cf_cases
     exprs = ["(c12-range-run \"%s\" '(%s))" % (path, " ".join(c[1] for c in g)) for g in groups]
     res = scm.run_cases(d, exprs, prelude_extra=prelude, imports=IMPORTS, chunk=25, timeout=(90 if not ctx.thorough else 400))
     with_model = [c for c in cases if c[5] is not None and RANGE_MODEL]
@@ -1751,8 +1756,8 @@ def check_ranges(ctx, exe, d, n_strings, n_big):
     reported, nb = {}, 0
     for g, e, r in zip(groups, exprs, res):
         got = parse_fields(r) if r and not r.startswith(("TIMEOUT", "CRASH", "ERR")) else None
-        if got is not None and len(got) != len(g):
-            got = None
+        if got is not None and (len(got) != len(g) or (r.startswith('"') and not (len(r) > 1 and r.endswith('"')))):
+            got = None      # also: an answer cut in the middle (the process was killed while writing) is a dead group, re-run below
         for k, c in enumerate(g):
             op, text, exp, cls, nontriv, mreq = c
             ctx.count(1, key=("range", text), nontrivial=nontriv)
@@ -1807,7 +1812,7 @@ def check_ranges(ctx, exe, d, n_strings, n_big):
                               replay="./check C12 --replay <this file>   # or: chibi-scheme with vlib/scm.py PRELUDE + harness/c12_hist.scm, then " + txt[:300])
         if got is None:
             # the whole group died: find the case by running them one by one
-            single = scm.run_cases(d, ["(c12-range-run \"%s\" '(%s))" % (path, c[1]) for c in g], prelude_extra=prelude, imports=IMPORTS, chunk=1, timeout=30)
+            single = scm.run_cases(d, ["(c12-range-run \"%s\" '(%s))" % (path, c[1]) for c in g], prelude_extra=prelude, imports=IMPORTS, chunk=1, timeout=(30 if not ctx.thorough else 150))
             found = False
             for c, r1 in zip(g, single):
                 if c[0] == "cf" and r1 and not r1.startswith(("TIMEOUT", "CRASH", "ERR")):
